@@ -1315,32 +1315,41 @@ def inline_custom_cases(ck, rng, stats, n, only=None, reqs=None, metas=None):
     specs = [only] if only is not None else [L.gen_spec(rng, i) for i in range(n)]
     dist = {}
     # observation facet (tie H of `CustomInline.decide`): which models does spox hand to the converter?
-    calls, vc, orig = [], None, None
+    calls, conv, vc, orig = [], [], None, None
     try:
         import onnx.version_converter as vc
 
         orig = vc.convert_version
 
+        def label(n):
+            return f"{n.domain}::{n.op_type}:{','.join(n.output)}"
+
         def recording(model, target, *a, **k):
+            res = orig(model, target, *a, **k)
             if model.graph.name != "spox__singleton_adapter_graph":
                 calls.append((max([o.version for o in model.opset_import if o.domain in ("", "ai.onnx")], default=None), target))
-            return orig(model, target, *a, **k)
+                # snapshot of the converted graph BEFORE spox's `_initializers_to_constants` rewrites it in place
+                conv.append(({"inputs": [i.name for i in res.graph.input], "initializers": [t.name for t in res.graph.initializer],
+                              "nodes": [label(n) for n in res.graph.node]}, res))
+            return res
 
         vc.convert_version = recording
     except Exception as e:  # noqa: BLE001
         ck.broken("correspondence", "onnx.version_converter not observable", f"{type(e).__name__}: {e}")
         vc = None
     try:
-        _inline_custom_loop(ck, L, specs, dist, calls, only, reqs, metas)
+        _inline_custom_loop(ck, L, specs, dist, calls, only, reqs, metas, conv)
     finally:
         if vc is not None and orig is not None:
             vc.convert_version = orig
     stats["inline_custom"] = dist
 
 
-def _inline_custom_loop(ck, L, specs, dist, calls, only, reqs, metas):
+def _inline_custom_loop(ck, L, specs, dist, calls, only, reqs, metas, conv=None):
+    conv = conv if conv is not None else []
     for spec in specs:
         del calls[:]
+        del conv[:]
         try:
             verdicts, info = L.run_spec(spec)
         except Exception as e:  # noqa: BLE001
@@ -1352,6 +1361,16 @@ def _inline_custom_loop(ck, L, specs, dist, calls, only, reqs, metas):
             reqs.append({"kind": "adapt", "imports": info["foreign_imports"], "domains": info["foreign_domains"],
                          "target": info["imports"][""]})
             metas.append(("adapt", spec, real))
+        for pre, res in (conv[:2] if reqs is not None else []):
+            # tie H of `CustomInline.initializersToConstants`: the same object after spox rewrote it in place
+            post = {"nodes": [("Constant:" + n.output[0]) if (n.op_type == "Constant" and not n.domain and n.output
+                                                              and n.output[0] in pre["initializers"]
+                                                              and f"::Constant:{n.output[0]}" not in pre["nodes"])
+                              else f"{n.domain}::{n.op_type}:{','.join(n.output)}" for n in res.graph.node],
+                    "initializers": [t.name for t in res.graph.initializer]}
+            reqs.append({"kind": "initconst", **pre})
+            metas.append(("initconst", spec, post))
+            dist["converted_with_initializers"] = dist.get("converted_with_initializers", 0) + int(bool(pre["initializers"]))
         ck.count(("inline-custom", repr(spec)))
         dist[spec["variant"]] = dist.get(spec["variant"], 0) + 1
         for c in spec["chain"]:
@@ -1499,6 +1518,9 @@ def run(ck: core.Check):
             else:
                 want = {"TypeError": "untyped", "ValueError": "notConcrete"}.get(real["err"])
                 d = None if m.get("err") == want else f"result infos: model {m} vs real {real}"
+        elif kind == "initconst":
+            d = None if (m.get("nodes"), m.get("initializers")) == (real["nodes"], real["initializers"]) else \
+                f"_initializers_to_constants: model {str(m)[:300]} vs observed {str(real)[:300]}"
         elif kind == "adapt":
             d = None if m == real else f"adapt_inline decision: model {m} vs observed {real}"
         elif kind == "reinfer":
